@@ -83,27 +83,25 @@ Fixpoint scan_int (s : bytes) (prev_us : bool) : option (bytes * bytes) :=
 Definition py_int (s : bytes) : option Z :=
   let s1 := lstrip s in
   let '(neg, s2) := match s1 with
-                    | x2d :: r => (true, r)
-                    | x2b :: r => (false, r)
-                    | _ => (false, s1)
+                    | c :: r => if byte_eqb c x2d then (true, r)
+                                else if byte_eqb c x2b then (false, r) else (false, s1)
+                    | [] => (false, s1)
                     end in
-  match s2 with
-  | x5f :: _ => None
-  | _ =>
-      match scan_int s2 false with
-      | None => None
-      | Some (ds, rest) =>
-          match ds with
-          | [] => None
-          | _ =>
-              if (4300 <? blen ds)%N then None
-              else match lstrip rest with
-                   | [] => let n := Z.of_N (digits_val ds) in Some (if neg then Z.opp n else n)
-                   | _ => None
-                   end
-          end
-      end
-  end.
+  if starts_with [x5f] s2 then None          (* may not start with an underscore *)
+  else
+    match scan_int s2 false with
+    | None => None
+    | Some (ds, rest) =>
+        match ds with
+        | [] => None
+        | _ :: _ =>
+            if (4300 <? blen ds)%N then None
+            else match lstrip rest with
+                 | [] => let n := Z.of_N (digits_val ds) in Some (if neg then Z.opp n else n)
+                 | _ :: _ => None
+                 end
+        end
+    end.
 
 (* ---- str(data, 'utf8') succeeds (strict decoder: no overlongs, no surrogates, <= U+10FFFF) ---- *)
 Definition in_range (lo hi : N) (b : byte) : bool := (lo <=? bN b)%N && (bN b <=? hi)%N.
